@@ -62,6 +62,9 @@ def _KEY_PARITY(v):
 
 def check_case(case):
     vs, ls, u = render.build(case)
+    if case["opt"] & 64:
+        for v in vs[::2]:
+            v.note = "first line\nsecond line -> x, y"     # unrelated multi-line user data on the vertices
     info = _check_render(case, vs, ls, u, 0)
     if render.perturb(case, vs, ls, u):
         # rendered again after attributes / membership changed, with another rfunc: nothing of the first call may linger
@@ -88,7 +91,7 @@ def _check_render(case, vs, ls, u, phase):
         txt = plaintext.basic_render(u, rfunc=title if use_r else None, sort=keys)
     except Exception as e:  # noqa
         raise Violation("render-raised", repr(e))
-    members = u.vertices
+    members = render.distinct(u.vertices)
     if not members:
         require(txt is None, "empty-universe-not-None", repr(txt))
         return dict(nt=False, classes=["empty-universe"])
